@@ -527,7 +527,7 @@ class TimeBase(np.ndarray):
         jd1 = h5_group["jd1"][...]
         jd2 = h5_group["jd2"][...]
         time = cls._cls_scale(scale).from_jds(jd1, jd2, fmt)
-        memo[f"{h5_group.attrs['fieldname']}"] = time
+        memo[h5_group.name[1:].replace("/", ".")] = time
         return time
 
     def _write(self, h5_group, memo):
